@@ -35,6 +35,7 @@ LEVEL_NOTE = ("Trusts the digest function and the sub-interpreter driver (usimds
 TECHNIQUE = "deterministic simulation, differential replay across configurations and fresh interpreters, FIFO run-queue monitor"
 
 BATCH = 25
+OPT_SHARE = 0                # C02 runs its own -O interpreters (SUBPROC)
 LAYOUT_DEPENDENT = True      # see runner.drive: confirmation tries several violations / interpreters
 INPROC = [{"waitq": "heap"}, {"waitq": "sd"}, {"waitq": "heap", "junk": 37, "retain": True},
           {"waitq": "sd", "junk": 101, "gc": True}, {"waitq": "heap", "gc": True}]
